@@ -218,4 +218,83 @@ theorem getLsbD_wordOfBits (f : Nat → Bool) (o : Nat) :
     (wordOfBits f).getLsbD o = (decide (o < 64) && f o) :=
   getLsbD_wordOfBits_aux f o 64 (Nat.le_refl _)
 
+/-! ### setOuts -/
+
+def setOutsFrom (z : Words) : Nat → List Gate → Store Bool → Store Bool
+  | _, [], w => w
+  | k, g :: t, w => setOutsFrom z (k + 1) t (w.set g.out (bit z k))
+
+theorem setOuts_eq (w : Store Bool) (batch : List Gate) (z : Words) :
+    setOuts w batch z = setOutsFrom z 0 batch w := by
+  unfold setOuts
+  suffices h : ∀ k w, (batch.zipIdx k).foldl (fun w gi => w.set gi.1.out (bit z gi.2)) w = setOutsFrom z k batch w from h 0 w
+  induction batch with
+  | nil => intro k w; rfl
+  | cons g t ih => intro k w; simp only [List.zipIdx_cons, List.foldl_cons, setOutsFrom]; exact ih _ _
+
+theorem setOutsFrom_size (z : Words) : ∀ (batch : List Gate) (k : Nat) (w : Store Bool),
+    (setOutsFrom z k batch w).size = w.size := by
+  intro batch
+  induction batch with
+  | nil => intro k w; rfl
+  | cons g t ih => intro k w; simp only [setOutsFrom]; rw [ih]; simp
+
+theorem setOutsFrom_frame (z : Words) : ∀ (batch : List Gate) (k : Nat) (w : Store Bool) (x : Nat),
+    (∀ g ∈ batch, g.out ≠ x) → (setOutsFrom z k batch w).get x = w.get x := by
+  intro batch
+  induction batch with
+  | nil => intro k w x _; rfl
+  | cons g t ih =>
+    intro k w x h
+    simp only [setOutsFrom]
+    rw [ih _ _ _ (fun g' hg' => h g' (List.mem_cons_of_mem _ hg'))]
+    exact Store.get_set_ne _ _ _ _ (h g List.mem_cons_self)
+
+theorem setOutsFrom_get (z : Words) : ∀ (batch : List Gate) (k : Nat) (w : Store Bool),
+    (batch.map (·.out)).Nodup → (∀ g ∈ batch, g.out < w.size) →
+    ∀ j (hj : j < batch.length), (setOutsFrom z k batch w).get (batch[j].out) = bit z (k + j) := by
+  intro batch
+  induction batch with
+  | nil => intro k w _ _ j hj; simp at hj
+  | cons g t ih =>
+    intro k w hnd hsz j hj
+    simp only [List.map_cons, List.nodup_cons, List.mem_map, not_exists, not_and] at hnd
+    simp only [setOutsFrom]
+    match j, hj with
+    | 0, _ =>
+      simp only [List.getElem_cons_zero, Nat.add_zero]
+      rw [setOutsFrom_frame z t _ _ _ (fun g' hg' => hnd.1 g' hg')]
+      exact Store.get_set_eq _ _ _ (hsz g List.mem_cons_self)
+    | j + 1, hj =>
+      simp only [List.getElem_cons_succ]
+      have := ih (k + 1) (w.set g.out (bit z k)) hnd.2
+        (fun g' hg' => by simp; exact hsz g' (List.mem_cons_of_mem _ hg')) j (by simpa using hj)
+      rw [this]
+      congr 1; omega
+
+/-! ### An independent AND batch evaluated in sequence reads the old store only -/
+
+theorem evalPlain_indep : ∀ (batch : List Gate) (S : Store Bool),
+    (batch.map (·.out)).Nodup → (∀ g ∈ batch, g.out < S.size) →
+    (∀ g ∈ batch, ∀ h ∈ batch, h.out ≠ g.in0 ∧ h.out ≠ g.in1) →
+    ∀ g ∈ batch, (evalPlainGates batch S).get g.out = g.op.eval (S.get g.in0) (S.get g.in1) := by
+  intro batch
+  induction batch with
+  | nil => intro S _ _ _ g hg; simp at hg
+  | cons g0 t ih =>
+    intro S hnd hsz hind g hg
+    simp only [List.map_cons, List.nodup_cons, List.mem_map, not_exists, not_and] at hnd
+    rw [evalPlainGates_cons]
+    rcases List.mem_cons.mp hg with rfl | hg'
+    · rw [evalPlainGates_frame t g.out _ (fun g' hg' => hnd.1 g' hg')]
+      exact Store.get_set_eq _ _ _ (hsz g List.mem_cons_self)
+    · have := ih (g0.evalPlain S) hnd.2
+        (fun g' hg'' => by simp [Gate.evalPlain]; exact hsz g' (List.mem_cons_of_mem _ hg''))
+        (fun a ha b hb => hind a (List.mem_cons_of_mem _ ha) b (List.mem_cons_of_mem _ hb)) g hg'
+      rw [this]
+      have h0 := hind g hg g0 List.mem_cons_self
+      have e0 : (g0.evalPlain S).get g.in0 = S.get g.in0 := Store.get_set_ne _ _ _ _ h0.1
+      have e1 : (g0.evalPlain S).get g.in1 = S.get g.in1 := Store.get_set_ne _ _ _ _ h0.2
+      rw [e0, e1]
+
 end Mpc.Gmw
